@@ -49,6 +49,8 @@ def dataset(rnd, nwf=(2, 3)):
             spans = [{"trace_id": trace, "span_id": "%s-root" % trace, "parent_span_id": None, "name": "R%d" % w,
                       "start_time_unix_nano": T0, "end_time_unix_nano": T0 + 100 * MIN}]
             chosen = [k for k in kids if rnd.random() < 0.7] or [kids[0]]
+            if rnd.random() < 0.15:
+                chosen = []          # a trace that consists of its root span only (e.g. a request answered from a cache)
             t = 1
             for k in chosen:
                 dur = rnd.randint(1, 6)
